@@ -1,12 +1,17 @@
 PROP = dict(
-    drivers=['Palette'],
-        gens=['palette'],
+    drivers=['Palette', 'PalStream'],
+        gens=['palette', 'palstream', 'xb', 'binfmt'],
         lake=['IcyVerif.Props.C16'],
         ns='IcyVerif.C16',
         theorems=['insert_resolves', 'insert_stable', 'insert_existing', 'insert_new', 'set_resolves', 'set_stable',
                   'history_stable', 'inserted_index_survives', 'trace_final',
                   'six_bit', 'asVec63_from63_eq', 'from63_whole_triples', 'six_bit_idempotent', 'ega_roundtrip', 'ega_save_idempotent',
-                  'export_import', 'unflattened_multiline_injects', 'pinned_gpl_empty_description'],
+                  'export_import', 'unflattened_multiline_injects', 'pinned_gpl_empty_description',
+                  'tracked_resolves', 'select_resolves', 'select_resolves_rgb', 'insert_only_stable', 'stream_history_stable',
+                  'osc4_changes_exactly', 'sgr_never_redefines', 'csi_t_never_redefines', 'osc_only_redefines', 'tnd_only_inserts',
+                  'sgr_256_resolves', 'sgr_rgb_resolves', 'cell_keeps_colour', 'tnd_palette_nodup', 'fill_to_16_stable',
+                  'resize_stable', 'import_by_extension', 'color_hex_roundtrip',
+                  'file_block_idempotent', 'file_block_six_bit', 'file_decoder_is_from63'],
         harness='c16',
         design='DESIGN.md §4 C16',
         technique='Lean 4 proof: index laws of insert_color / set_color / push / get_rgb by induction on the palette list and '
@@ -15,22 +20,65 @@ PROP = dict(
                   'induction on the slot list, slot table from the source); export->import of the five text formats for '
                   'arbitrary metadata strings by induction on the colour list over a model whose templates, magic lines and '
                   'regex literals are regenerated from src/palette_handling.rs and whose regex matchers are hand-written and '
-                  'tied by differential correspondence (exported, mutated, cross-format and random text)',
+                  'tied by differential correspondence (exported, mutated, cross-format and random text). CALL SITES: every '
+                  'palette-relevant byte sequence of the ANSI parser (SGR incl. 38/48;5;n and 38/48;2;r;g;b, CSI t, OSC 4, RIS/FF, '
+                  'printed characters) and the Tundra colour records are decoded into a list of primitive operations on the state '
+                  '(palette, caret fg index, caret bg index); the invariant "an index handed out for a colour resolves to that '
+                  'colour until an OSC 4 names that very index" is proved for one operation and lifted to every history by '
+                  'induction (tracked_resolves), stability of valid indices and growth bounds likewise; that SGR / CSI t / Tundra can '
+                  'only insert holds by construction (their decoders produce a type without the redefinition constructor), that OSC '
+                  'only redefines entries 0..=255 by induction over the regex matches. The SGR arm table, XTERM_256_PALETTE, '
+                  'COLOR_OFFSETS, the caret defaults and the Tundra command codes are regenerated from the source; the text of '
+                  'parse_extended_colors, select_24bit_color, the CSI t dispatch, parse_osc, parse_next_number and the CSI digit loop '
+                  'is pinned by the translator (a change = broken obligation). The OSC regex is a hand-written matcher tied by the '
+                  'correspondence run. Whole-file palette blocks: the C05 whole-file model (Model/BinFormats.lean) is driven for '
+                  'XBin/IDF/ADF/Tundra files and its from_63/as_vec_63 are proved idempotent for every byte block and equal to this '
+                  'property\'s from63.',
         rule='cases: seeded insert/set/lookup/push histories on palettes of 0..=300 colours (every answer + final palette '
              'compared); from_63 / as_vec_63 / from_ega_data / to_ega_data on all 64 values per channel (thorough: all 64^3 '
              'triples), raw bytes, ragged and short inputs; export of 0..=256 colours x {empty, ASCII, digit-laden, hex-laden, '
              'comment-like, blank, CR, multi-line, non-ASCII} title/author/description/colour names x 5 formats (bytes hashed), '
-             'import of every exported file, of mutated files, of each file as every other format and of random text; '
+             'import of every exported file, of mutated files, of each file as every other format, through import_palette by '
+             'extension (any letter case, unknown extensions), of invalid UTF-8 and of random text; Color::to_hex/from_hex. '
+             'STREAMS through the real ansi::Parser on a real Buffer, compared after EVERY sequence (ok/err, caret fg/bg index, '
+             'palette length, RGB both indices resolve to; final palette hashed): fixed witnesses, every xterm colour number '
+             'selected twice with an OSC 4 redefinition of the index it was given in between, random streams (1..120 sequences) '
+             'from palettes of 0/1/2/15/16/17/40/254..257/300 colours with duplicates and xterm/DOS colours already present, OSC 4 '
+             'aimed at the index the implementation just handed out / beyond the end / 255 / 256 / large, several pairs, malformed '
+             'specs (one-digit channels, missing index, selector as index, leading `;`, 2^32, other selectors, hyperlinks), '
+             'SGR with several selections and attribute-only parameters, truncated and out-of-range 38/48 forms, saturating '
+             'parameters, CSI t with 3/4/5 parameters, values above 255 and selectors 2..8, palette growth past 16 and 256, '
+             'exhaustive sequences of length 2 over 14 and length 3 over 9 (thorough: 14; length 4 over 10) sequence shapes. '
+             'Oracle on the implementation alone: selected index resolves to the requested RGB; nothing but OSC 4 changes a '
+             'valid index; OSC 4 changes exactly the named entries; a printed cell holds the caret indices. TUNDRA: hand-built '
+             'files (colour records fg/bg/both, index reuse, jumps, truncation, >256 colours) loaded by the real loader: palette, '
+             'every stored cell\'s indices; oracle: every cell resolves to the RGB of its record, no colour twice, entry 0 black, '
+             'load->save->load shows the same colours. FILES: 16-colour six-bit palettes covering all 64 values in every channel '
+             'x {xb, idf, adf} saved and loaded by the real crate, raw palette blocks (values above 63) patched into engine-written '
+             'files, load->save->load. HELPERS: resize / fill_to_16 / is_default / from_slice / get_color / clear; '
              'distinct_nontrivial = distinct replay inputs',
         modelled='Palette::{from, get_rgb, insert_color, insert_color_rgb, set_color, set_color_rgb, push, as_vec, from_63, '
-                 'as_vec_63, export_palette, load_palette (Hex, Pal, Gpl, Ice, Txt)}, artworx::{from_ega_data, to_ega_data}; '
-                 'str::lines; the regexes HEX/PAL/GPL_COLOR/ICE_COLOR/TXT_COLOR and the eight metadata regexes as hand-written '
-                 'matchers over code points (\\s = Unicode White_Space)',
-        not_modelled='PaletteFormat::Ase (todo!()), import_palette (extension dispatch), set_color_hsl (floats), get_checksum, '
-                     'resize/fill_to_16, invalid UTF-8 input (load_palette returns Err before any matcher runs; the driver '
-                     'answers err too), \\d on non-ASCII decimal digits (model reads \\d as [0-9]; generator avoids them), '
-                     'u32 index overflow in set_color for indices near usize::MAX',
-        assumptions=['the regex crate matches the five colour patterns and eight metadata patterns like the hand-written '
-                     'matchers (checked only by the correspondence run)',
-                     'palettes have fewer than 2^31 colours (insert_resolves, set_resolves, inserted_index_survives)'],
+                 'as_vec_63, export_palette, load_palette (Hex, Pal, Gpl, Ice, Txt), import_palette, resize, fill_to_16, '
+                 'is_default}, Color::{to_hex, from_hex}, artworx::{from_ega_data, to_ega_data}; str::lines; the regexes '
+                 'HEX/PAL/GPL_COLOR/ICE_COLOR/TXT_COLOR and the eight metadata regexes as hand-written matchers over code points '
+                 '(\\s = Unicode White_Space); ansi::Parser as far as the palette and the caret colours go: the CSI parameter loop '
+                 '(parse_next_number), select_graphic_rendition (all arms, table from the source), parse_extended_colors, '
+                 'select_24bit_color and the 3/4-parameter dispatch of CSI t, parse_osc (selector loop, OSC_PALETTE as a '
+                 'hand-written matcher, index limit, set_color_rgb; OSC 8 as a no-op on colours), ESC c / FF as colour reset, a '
+                 'printed character as a cell write; TundraDraw::load_buffer command loop (colour records, jumps, truncation) as '
+                 'palette operations + cell positions, cross-checked at run time against the C05 whole-file model; XBin / IDF / '
+                 'ADF / Tundra load and save of whole files through the C05 model (Model/BinFormats.lean)',
+        not_modelled='PaletteFormat::Ase (todo!()), set_color_hsl and the f32/f64 Color conversions (floats), get_checksum '
+                     '(incremental CRC over appended colours only: an entry redefined by OSC 4 does not change it - not part of '
+                     'this property), invalid UTF-8 input (load_palette returns Err before any matcher runs; the driver answers err '
+                     'too), \\d on non-ASCII decimal digits (model reads \\d as [0-9] in the palette files and in OSC 4; generator '
+                     'avoids them), u32 index overflow in set_color for indices near usize::MAX, an ESC inside an OSC string, '
+                     'non-ASCII bytes in escape sequences, every other CSI / escape sequence (they do not touch palette or caret '
+                     'colours: C04/C15), negative Tundra jump targets',
+        assumptions=['the regex crate matches the five colour patterns, eight metadata patterns and OSC_PALETTE like the '
+                     'hand-written matchers (checked only by the correspondence run)',
+                     'palettes have fewer than 2^31 colours (insert_resolves, set_resolves, inserted_index_survives, '
+                     'select_resolves_rgb; tracked_resolves itself needs no bound)',
+                     'the decoders sgrOps / tOps / oscOps / tndOps describe the real parser and loader (checked only by the '
+                     'correspondence run; the source text they follow is pinned by the translator)'],
     )
